@@ -513,7 +513,7 @@ pub fn all_subjects(prop: &str, thorough: bool) -> Vec<Subject> {
     }
     if prop == "C19" {
         let mut ts = tag_placements(5, false);
-        ts.truncate(if thorough { 20 } else { 6 });
+        ts.truncate(if thorough { 12 } else { 6 });
         return crate::subjects_derive::derive_subjects(&ts);
     }
     let mut v = generic_subjects(&tagsets);
